@@ -389,107 +389,73 @@ def rule_workers_wait_only_for_work(ctx, rid, r, user_reaching):
 
 # ------------------------------------------------------------------------------------------------ C10.F6
 def rule_retry_loop(ctx, rid, r):
+    """The built-in retry decorator, interpreted by the checker's evaluator for attempts n in 1..4 and a function that fails
+    its first j attempts (j = 0..n) with distinct exceptions E1, E2, ...: it is called min(j + 1, n) times with the caller's
+    arguments, the first success is returned, and when all n attempts fail the exception of the LAST attempt is raised.
+    Independent of how the attempt loop is written (for/range, countdown, recursion)."""
+    from ..absval import AbsRaise, Interp, Stub
     m = ctx.model
     cr = m.one_func("create_retry", "RETRY")
-    wrappers = [f for f in cr.all_nested() if any(isinstance(n, ast.For) for n in f.own_nodes())]
-    if len(wrappers) != 1:
-        raise AnalysisError("retry wrapper (nested def with the attempt loop) not found")
-    w = wrappers[0]
-    dec = w.parent
-    fparam = dec.pos_params[0] if dec is not cr and dec.pos_params else None
-    loops = [n for n in w.own_nodes() if isinstance(n, ast.For)]
-    lp = loops[0]
-    attempts = cr.pos_params[0]
-    ok = isinstance(lp.iter, ast.Call) and norm(lp.iter) == f"range({attempts})" and isinstance(lp.target, ast.Name)
-    ctx.ob(rid, f"{w.short}/range-attempts", ok, loc(w, lp), f"loop over range({attempts})" if ok else
-           "attempt loop does not range over range(attempts)", head(lp))
-    if not ok:
-        return
-    idx = lp.target.id
-    tries = [s for s in lp.body if isinstance(s, ast.Try)]
-    ok = len(lp.body) == 1 and len(tries) == 1
-    ctx.ob(rid, f"{w.short}/loop-body", ok, loc(w, lp), "loop body is one try statement" if ok else "loop body is not a single try")
-    if not ok:
-        return
-    t = tries[0]
-    ok = len(t.body) == 1 and isinstance(t.body[0], ast.Return) and isinstance(t.body[0].value, ast.Call) and \
-        is_name(t.body[0].value.func, fparam) and norm(t.body[0].value) == f"{fparam}(*{w.vararg}, **{w.kwarg})"
-    ctx.ob(rid, f"{w.short}/first-success-returns", bool(ok), loc(w, t), "try body returns f(*args, **kwargs): the first success ends the loop"
-           if ok else "try body is not `return f(*args, **kwargs)`", norm(t.body[0]))
-    ok = len(t.handlers) == 1 and not t.finalbody and not t.orelse
-    ctx.ob(rid, f"{w.short}/one-handler", ok, loc(w, t), "one handler, no else/finally")
-    if not ok:
-        return
-    h = t.handlers[0]
-    # handler class: the exc_type parameter whose default is Exception (never BaseException)
-    cls_ok = False
-    if isinstance(h.type, ast.Name) and h.type.id in cr.params:
-        d = cr.defaults.get(h.type.id)
-        cls_ok = d is not None and norm(d) == "Exception"
-    elif isinstance(h.type, ast.Name) and h.type.id == "Exception":
-        cls_ok = True
-    ctx.ob(rid, f"{w.short}/retries-Exception-only", cls_ok, loc(w, h), "retries Exception subclasses only" if cls_ok else
-           "retry catches more than Exception (KeyboardInterrupt/SystemExit from a call are retried)", head(h))
-    # bare raise exactly on the last index
-    raises = [n for n in ast.walk(h) if isinstance(n, ast.Raise)]
-    ok = len(raises) == 1 and raises[0].exc is None
-    ctx.ob(rid, f"{w.short}/bare-raise", ok, loc(w, h), "re-raises with a bare raise (the exception of this attempt)" if ok else
-           "handler does not re-raise with a bare raise: the reported exception is not the one of the last attempt", head(h))
-    if ok:
-        conds = E.path_condition(w.module, raises[0], h)
-        # resolve a local flag variable
-        tests = []
-        for tst, pol in conds:
-            if isinstance(tst, ast.Name):
-                b = [x for x in w.bindings.get(tst.id, []) if x[0] == "assign"]
-                if len(b) == 1:
-                    tst = b[0][1]
-            tests.append((tst, pol))
-        exact = True
-        evaluated = 0
-        for a_ in (2, 3, 4, 7):
-            for i_ in range(a_):
-                v = True
-                for tst, pol in tests:
-                    ev = _eval_int_test(tst, {idx: i_, attempts: a_})
-                    if ev is None:
-                        raise AnalysisError(f"{w.qualname}: last-attempt test `{norm(tst)}` outside the integer test language")
-                    v = v and (ev if pol else not ev)
-                evaluated += 1
-                if v != (i_ == a_ - 1):
-                    exact = False
-        ctx.notes["retry_index_cases_evaluated"] = evaluated
-        ctx.ob(rid, f"{w.short}/raise-exactly-on-last", exact and bool(tests), loc(w, raises[0]),
-               "the handler re-raises exactly when index == attempts - 1 (checked for attempts in {2,3,4,7})" if exact and tests else
-               "the re-raise condition is not `index == attempts - 1`: too few/many attempts or a swallowed final failure",
-               " and ".join(norm(t_) for t_, _ in tests))
-    # the wrapper can only end by returning f's value or by raising: no break out of the attempt loop, no bare return
-    # (with "raise exactly on the last index" above, exhausting the loop normally is infeasible)
-    esc = [n_ for n_ in w.own_nodes() if isinstance(n_, ast.Break) or (isinstance(n_, ast.Return) and n_.value is None)]
-    ctx.ob(rid, f"{w.short}/no-fall-through", not esc, loc(w, esc[0]) if esc else loc(w),
-           "no break / bare return: every normal exit of the wrapper returns the value of a successful attempt" if not esc else
-           "the wrapper can leave the attempt loop without re-raising (break / bare return): it returns None as if the call had "
-           "succeeded, dependents run and None is written to the call's store", norm(esc[0]) if esc else "")
-    # nothing after the loop returns a value silently
-    after = [s for s in w.node.body if s.lineno > lp.lineno]
-    ctx.ob(rid, f"{w.short}/nothing-after-loop", not after, loc(w), "no statement after the attempt loop" if not after else
-           "statements after the attempt loop", "")
-    # guards of create_retry
-    guards = {norm(n.test): n for n in cr.own_nodes() if isinstance(n, ast.If)}
-    ok = f"{attempts} < 1" in guards and any(isinstance(s, ast.Raise) for s in guards[f"{attempts} < 1"].body)
-    ctx.ob(rid, f"{cr.short}/rejects-nonpositive", ok, loc(cr), "attempts < 1 rejected" if ok else "attempts < 1 is not rejected")
-    g1 = guards.get(f"{attempts} == 1")
-    ok = g1 is not None and any(isinstance(s, ast.Return) and norm(s.value) == "identity" for s in g1.body)
-    ctx.ob(rid, f"{cr.short}/one-attempt-identity", ok, loc(cr), "attempts == 1 yields the identity decorator" if ok else
-           "attempts == 1 special case changed")
-    # _coerce_retry: callable returned as is; otherwise create_retry(1 if None else n)
-    cf = m.one_func("_coerce_retry", "COERCE_RETRY")
-    rets = [n for n in cf.own_nodes() if isinstance(n, ast.Return)]
-    p = cf.pos_params[0]
-    ok = any(is_name(x.value, p) and any(norm(t_) == f"callable({p})" and pol for t_, pol in E.path_condition(cf.module, x, cf.node)) for x in rets) \
-        and any(isinstance(x.value, ast.Call) and canon([x.value], set(cf.params) | {"create_retry"}) == canon([f"create_retry(1 if {p} is None else {p})"], set(cf.params) | {"create_retry"}) for x in rets)
-    ctx.ob(rid, f"{cf.short}/coercion", ok, loc(cf), "callable passed through; None -> 1 attempt; n -> create_retry(n)" if ok else
-           "retry coercion changed")
+    bad, n_eval = [], 0
+
+    class _Custom(Exception):
+        pass
+    # the outcome must not depend on WHICH Exception subclass the attempts raise (a retry that treats some classes as
+    # 'fatal' and leaves its loop returns None as if the call had succeeded)
+    panel = (ValueError, TypeError, NotImplementedError, KeyError, OSError, RuntimeError, AttributeError, _Custom)
+    for n in (1, 2, 3, 4):
+        for j in range(0, n + 1):
+            for exc_cls in panel:
+                calls, raised = [], []
+
+                def f(*a, **k):
+                    calls.append((a, k))
+                    if len(calls) <= j:
+                        e_ = exc_cls(f"E{len(calls)}")
+                        raised.append(e_)
+                        raise AbsRaise(e_)
+                    return "OK"
+                it = Interp(m, ext={"functools.wraps": lambda fn: (lambda g: g)}, stubs={"assert_is_instance": Stub("assert_is_instance", lambda *a, **k: None)})
+                try:
+                    dec = it.call_func(cr, None, [n], {})
+                    w = it.call(dec, [Stub("f", f)], {})
+                    out = ("returned", it.call(w, [1], {"k": 2}))
+                except AbsRaise as e:
+                    out = ("raised", e.value)
+                n_eval += 1
+                want_calls = min(j + 1, n)
+                good = (out == ("returned", "OK")) if j < n else (out[0] == "raised" and raised and out[1] is raised[-1] and len(raised) == n)
+                if not good or len(calls) != want_calls or any(c != ((1,), {"k": 2}) for c in calls):
+                    bad.append((n, j, exc_cls.__name__, out[0], repr(out[1])[:30], len(calls)))
+    ctx.notes["retry_cases_evaluated"] = n_eval
+    ok = not bad
+    ctx.ob(rid, f"{cr.short}/attempts-and-last-exception", ok, loc(cr),
+           f"evaluated for attempts 1..4 x failing prefixes: min(j+1, n) calls, first success returned, the last attempt's exception raised ({n_eval} cases)" if ok else
+           f"retry(n) with a function failing its first j attempts: (n, j, outcome, calls) = {bad[:3]} deviates from "
+           f"'at most n attempts, stop at the first success, raise the exception of the last attempt'")
+    # structural remainder: which exception classes are retried, and nothing is retained between attempts
+    wrappers = [f_ for f_ in cr.all_nested() if any(isinstance(n_, ast.Try) for n_ in f_.own_nodes())]
+    ctx.floor(rid, "retry wrappers with a handler", len(wrappers), 1)
+    for w in wrappers:
+        for h in [h_ for t_ in w.own_nodes() if isinstance(t_, ast.Try) for h_ in t_.handlers]:
+            cls_ok = False
+            if isinstance(h.type, ast.Name) and h.type.id in cr.params:
+                d = cr.defaults.get(h.type.id)
+                cls_ok = d is not None and norm(d) == "Exception"
+            elif isinstance(h.type, ast.Name) and h.type.id == "Exception":
+                cls_ok = True
+            ctx.ob(rid, f"{w.short}/retries-Exception-only", cls_ok, loc(w, h), "retries Exception subclasses only" if cls_ok else
+                   "retry catches more than Exception (KeyboardInterrupt/SystemExit from a call are retried)", head(h))
+    # attempts < 1 is rejected, attempts == 1 is the identity decorator (evaluated above for n = 1)
+    it = Interp(m, ext={"functools.wraps": lambda fn: (lambda g: g), "builtins.ValueError": lambda *a: "ValueError",
+                        "builtins.TypeError": lambda *a: "TypeError"},
+                stubs={"assert_is_instance": Stub("assert_is_instance", lambda *a, **k: None)})
+    try:
+        it.call_func(cr, None, [0], {})
+        rejected = False
+    except AbsRaise:
+        rejected = True
+    ctx.ob(rid, f"{cr.short}/rejects-zero", rejected, loc(cr), "attempts < 1 is rejected" if rejected else "attempts = 0 is accepted: the call is never made and None is returned")
 
 
 def _eval_int_test(t, env):
